@@ -281,8 +281,10 @@ def run(prog: Program, rep: Report, tier: str):
     projections(prog, rep, C, "x", "class", clause="C11.5")
     # the jointly drawn pair must also win when the label is requested before the data ('class x'): ModeWrapper writes loader
     # results back in list order, last writer wins
-    from .c01 import fuse_lists_append_only
-    fuse_lists_append_only(prog, rep, clause="C11.5")
+    # jointly loaded items: the constructor's bookkeeping decides which loader result lands at which position of the sample -
+    # the same rules as for the mode contract (declared order, paired appends, membership scope, append-only lists)
+    from .c01 import constructor as _mode_constructor
+    _mode_constructor(prog, rep, prog.cls("ModeWrapper"), clause="C11.5", fuse_only=True)
     # one_hot helper
     oh = prog.func("kappadata/utils/one_hot.py", "to_one_hot_vector")
     oa = fa_of(prog, oh)
